@@ -28,7 +28,9 @@ REPO = os.environ.get("VERIF_REPO", "/repo")
 SRC = os.path.join(REPO, "src")
 WORK = os.path.join(ROOT, "work")
 LEAN = os.path.join(ROOT, "lean")
-EVID = os.path.join(ROOT, "evidence")
+# evidence of /repo itself is the deliverable; a run against another tree (VERIF_REPO, used for seeded changes) keeps its
+# evidence apart so that the committed files always describe /repo
+EVID = os.path.join(ROOT, "evidence") if REPO == "/repo" else os.path.join(ROOT, "work", "evidence-other-tree")
 REPLAYS = os.path.join(ROOT, "replays")
 NPROC = os.cpu_count() or 4
 
@@ -267,6 +269,9 @@ def lean_build(force=False, targets=None, timeout=3000):
             sys.path.insert(0, os.path.join(ROOT, "extract"))
             import consts  # noqa
             consts.generate(REPO, os.path.join(LEAN, "Cjet", "Generated", "Consts.lean"))
+            if getattr(consts.generate, "plugin_errors", None):
+                # the plugin's Generated file now fails to compile: only targets importing it break
+                ext_log = "extraction plugins failed: %s\n" % consts.generate.plugin_errors
         except Exception as ex:  # extraction pattern no longer matches: broken tie
             ext_ok, ext_log = False, "constants extraction failed: %r" % (ex,)
         # default: the whole library and every driver whose root exists; VERIF_LEAN_TARGETS
